@@ -259,6 +259,63 @@ def oracle(ck, tier, deep):
         if np.abs(fresh.func - 1.5 * wf).max() > 1e-12 * scale or np.abs(fresh.abel - 1.5 * wa).max() > 1e-12 * scale:
             ck.violation(dict(site="PiecewiseSPolynomial", clause="scalar-ops-in-place"), rep,
                          f"`*= 3; /= 2` on a freshly built PiecewiseSPolynomial of {npieces} piece(s) did not scale func and abel by 1.5")
+    # the grids are arrays of numbers, however they are laid out in memory: column-major copies (an image with a horizontal symmetry
+    # axis handled as the transpose of a vertical one, MATLAB / Fortran data), transposed views and strided slices of larger arrays
+    # give the values of the row-major copy
+    for it in range(6 if not deep else 40):
+        shape = (int(rng.integers(6, 12)), int(rng.integers(6, 12)))
+        origin = (float(rng.uniform(0, shape[0] - 1)), float(rng.uniform(0, shape[1] - 1)))
+        R, C = quiet(rcos, shape=shape, origin=origin)
+        M, N = int(rng.integers(1, 4)), int(rng.integers(1, 4))
+        c = rng.normal(size=(M, N))
+        rmin, rmax = sorted(rng.uniform(0, 9, size=2))
+        extra = (float(rng.uniform(0, 5)), float(rng.choice([-2.5, 0.7, 1.0, 2.0])))
+        ranges = [(float(rmin), float(rmax), c) + extra, (float(rmax), float(rmax + 3), rng.normal(size=(2, 2)))]
+        big_R, big_C = np.zeros((2 * shape[0], 2 * shape[1])), np.zeros((2 * shape[0], 2 * shape[1]))
+        big_R[::2, ::2], big_C[::2, ::2] = R, C
+        layouts = {"fortran": (np.asfortranarray(R), np.asfortranarray(C)), "transposed-view": (np.ascontiguousarray(R.T).T, np.ascontiguousarray(C.T).T),
+                   "strided": (big_R[::2, ::2], big_C[::2, ::2]), "mixed": (np.asfortranarray(R), np.ascontiguousarray(C))}
+        ref = quiet(SPolynomial, R, C, float(rmin), float(rmax), c, *extra)
+        refp = quiet(PiecewiseSPolynomial, R, C, ranges)
+        for lname, (Rl, Cl) in layouts.items():
+            ck.count(("S.layout", lname, M, N), suite="S.spolynomial")
+            try:
+                got = quiet(SPolynomial, Rl, Cl, float(rmin), float(rmax), c, *extra)
+                gotp = quiet(PiecewiseSPolynomial, Rl, Cl, ranges)
+            except Exception as e:
+                ck.violation(dict(site="SPolynomial", clause="layout-exception"), dict(layout=lname, shape=list(shape)), f"{type(e).__name__}: {e}")
+                continue
+            for cls, a, b in (("SPolynomial", got, ref), ("PiecewiseSPolynomial", gotp, refp)):
+                sc = max(1.0, float(np.abs(b.func).max()), float(np.abs(b.abel).max()))
+                if not (np.allclose(a.func, b.func, rtol=0, atol=1e-12 * sc) and np.allclose(a.abel, b.abel, rtol=0, atol=1e-12 * sc)):
+                    ck.violation(dict(site=cls, clause="memory-layout"), dict(layout=lname, shape=list(shape), r_min=float(rmin), r_max=float(rmax), c=c.tolist()),
+                                 f"{cls} on {lname} r / cos arrays: func / abel differ from the row-major copy by "
+                                 f"{np.abs(a.func - b.func).max():.3g} / {np.abs(a.abel - b.abel).max():.3g}")
+    # pieces that lie beyond the sampled radii (r_min > max r) have no func values on the grid, but the lines of sight through the grid
+    # points cross them: abel must include them
+    for it in range(6 if not deep else 40):
+        shape = (int(rng.integers(6, 12)), int(rng.integers(6, 12)))
+        R, C = quiet(rcos, shape=shape)
+        far = float(R.max()) + float(rng.uniform(0.1, 3))
+        ranges = [(0.0, float(rng.uniform(1, R.max())), rng.normal(size=(2, 2))), (far, far + float(rng.uniform(0.5, 4)), rng.normal(size=(3, 1))),
+                  (far + 5, far + 7, rng.normal(size=(1, 3)))]
+        ck.count(("S.beyond-grid", shape[0] % 2, shape[1] % 2), suite="S.spolynomial")
+        pw = quiet(PiecewiseSPolynomial, R, C, ranges)
+        parts = [quiet(SPolynomial, R, C, *rg) for rg in ranges]
+        wa = sum(q.abel for q in parts)
+        i, j = int(rng.integers(0, shape[0])), int(rng.integers(0, shape[1]))
+        x, cs = float(R[i, j]), float(C[i, j])
+        quadv = 0.0
+        for (a_, b_, cc) in ranges:
+            for m_ in range(cc.shape[0]):
+                for n_ in range(cc.shape[1]):
+                    if cc[m_, n_]:
+                        quadv += cc[m_, n_] * abel_of(lambda rr, m_=m_, n_=n_: rr ** m_ * ((x * cs / rr) ** n_ if n_ else 1.0), x, a_, b_)
+        sc = max(1.0, float(np.abs(wa).max()))
+        if np.abs(pw.abel - wa).max() > 1e-12 * sc or abs(pw.abel[i, j] - quadv) > 1e-8 * sc:
+            ck.violation(dict(site="PiecewiseSPolynomial", clause="pieces-beyond-grid"), dict(shape=list(shape), far=far, pixel=[i, j]),
+                         f"PiecewiseSPolynomial with pieces beyond the sampled radii: abel differs from the sum of its pieces by {np.abs(pw.abel - wa).max():.3g}; "
+                         f"abel[{i},{j}] = {pw.abel[i, j]:.10g}, line-of-sight integral = {quadv:.10g}")
     # rcos conventions
     R, C = quiet(rcos, shape=(5, 7), origin=(1, 2))
     ck.count("S.rcos", suite="S.spolynomial")
